@@ -800,7 +800,11 @@ def _enc_midi_ev(ev):
         ty = 6           # note_on with velocity 0 is parsed as NOTE_OFF
     if ty not in (2, 3, 4, 5, 6, 7):
         ty = 1
-    kidx = None if key is None else KEY_IDX[MusicMapping.KeyKeyMapping[key]] if key in MusicMapping.KeyKeyMapping else -7
+    # the key index a name stands for comes from the harness's own table of MIDI key names (h3midi_util.MIDO_KEYS), not from the
+    # KeyKeyMapping under test (audit 3, O2): a wrong table entry then shows as a correspondence disagreement
+    import h3midi_util as _H
+    _k = None if key is None else _H.expected_key_index(key, _H.key_index_by_member())
+    kidx = None if key is None else (-7 if _k is None else _k)
     ch_w = None if ty in (1, 2, 3) else ch
     if ty == 1:
         # the kind of uninterpreted event is the harness's business, not the model's — except that channel messages
